@@ -21,6 +21,7 @@ package main
 import (
 	"fmt"
 	"math"
+	"strconv"
 	"strings"
 
 	"github.com/thanos-io/thanos/verifharness/hlib"
@@ -31,6 +32,9 @@ func init() {
 }
 
 func execC37(c *hlib.Ctx, tok []string) string {
+	if len(tok) > 0 && tok[0] == "o.block" {
+		return execBlock(c, tok, "C37")
+	}
 	out, cs := execDs(tok)
 	if cs == nil || len(tok) == 0 || tok[0] != "ds.ctr" {
 		return out
@@ -45,25 +49,7 @@ func execC37(c *hlib.Ctx, tok []string) string {
 		c.Count("oracle:skipped-out-of-domain")
 		return out
 	}
-	var rt []int64
-	var adj []float64
-	last := 0.0
-	for i := range cs.ts {
-		v := cs.vs[i]
-		if math.IsNaN(v) {
-			continue
-		}
-		switch {
-		case len(rt) == 0:
-			adj = append(adj, v)
-		case v >= last:
-			adj = append(adj, adj[len(adj)-1]+v-last)
-		default:
-			adj = append(adj, adj[len(adj)-1]+v)
-		}
-		last = v
-		rt = append(rt, cs.ts[i])
-	}
+	rt, adj := adjustedRaw(cs.ts, cs.vs)
 	parts := strings.Split(out, ";")
 	if len(parts) != 2 {
 		c.Violation("counter-answer", "malformed answer "+out)
@@ -87,38 +73,93 @@ func execC37(c *hlib.Ctx, tok []string) string {
 		if len(ls) == 1 {
 			got = ls[0]
 		}
-		j := -1
-		for i, g := range got {
-			if i > 0 && got[i-1].t >= g.t {
-				c.Violation("counter-ts-order", fmt.Sprintf("level %d: timestamp %d after %d", lvl+1, g.t, got[i-1].t))
-				break
-			}
-			for j+1 < len(rt) && rt[j+1] <= g.t {
-				j++
-			}
-			if j < 0 {
-				c.Violation("counter-value-wrong", fmt.Sprintf("level %d: sample at %d precedes every raw sample", lvl+1, g.t))
-				break
-			}
-			if g.v != adj[j] {
-				c.Violation("counter-value-wrong", fmt.Sprintf("level %d: at %d got %v, the reset-adjusted raw counter at the last raw sample ≤ %d (t=%d) is %v", lvl+1, g.t, g.v, g.t, rt[j], adj[j]))
-				break
-			}
-		}
-		switch {
-		case len(rt) == 0 && len(got) != 0:
-			c.Violation("counter-value-wrong", fmt.Sprintf("level %d: samples although the raw series has none", lvl+1))
-		case len(rt) > 0 && (len(got) == 0 || got[len(got)-1].t != rt[len(rt)-1]):
-			c.Violation("counter-last-missing", fmt.Sprintf("level %d: the read-back does not end at the last raw sample %d", lvl+1, rt[len(rt)-1]))
-		case len(rt) > 0 && got[0].t != rt[0]:
-			c.Violation("counter-first-missing", fmt.Sprintf("level %d: the read-back does not start at the first raw sample %d", lvl+1, rt[0]))
-		}
+		checkCounter(c, lvl+1, rt, adj, got)
 	}
 	return out
 }
 
+// adjustedRaw: the non-NaN raw timestamps and the reset-adjusted counter after each of them.
+func adjustedRaw(ts []int64, vs []float64) (rt []int64, adj []float64) {
+	last := 0.0
+	for i := range ts {
+		v := vs[i]
+		if math.IsNaN(v) {
+			continue
+		}
+		switch {
+		case len(rt) == 0:
+			adj = append(adj, v)
+		case v >= last:
+			adj = append(adj, adj[len(adj)-1]+v-last)
+		default:
+			adj = append(adj, adj[len(adj)-1]+v)
+		}
+		last = v
+		rt = append(rt, ts[i])
+	}
+	return rt, adj
+}
+
+// checkCounter: the counter equation of C37 for one level's read-back.
+func checkCounter(c *hlib.Ctx, lvl int, rt []int64, adj []float64, got []pt) {
+	j := -1
+	for i, g := range got {
+		if i > 0 && got[i-1].t >= g.t {
+			c.Violation("counter-ts-order", fmt.Sprintf("level %d: timestamp %d after %d", lvl, g.t, got[i-1].t))
+			break
+		}
+		for j+1 < len(rt) && rt[j+1] <= g.t {
+			j++
+		}
+		if j < 0 {
+			c.Violation("counter-value-wrong", fmt.Sprintf("level %d: sample at %d precedes every raw sample", lvl, g.t))
+			break
+		}
+		if g.v != adj[j] {
+			c.Violation("counter-value-wrong", fmt.Sprintf("level %d: at %d got %v, the reset-adjusted raw counter at the last raw sample ≤ %d (t=%d) is %v", lvl, g.t, g.v, g.t, rt[j], adj[j]))
+			break
+		}
+	}
+	switch {
+	case len(rt) == 0 && len(got) != 0:
+		c.Violation("counter-value-wrong", fmt.Sprintf("level %d: samples although the raw series has none", lvl))
+	case len(rt) > 0 && (len(got) == 0 || got[len(got)-1].t != rt[len(rt)-1]):
+		c.Violation("counter-last-missing", fmt.Sprintf("level %d: the read-back does not end at the last raw sample %d", lvl, rt[len(rt)-1]))
+	case len(rt) > 0 && got[0].t != rt[0]:
+		c.Violation("counter-first-missing", fmt.Sprintf("level %d: the read-back does not start at the first raw sample %d", lvl, rt[0]))
+	}
+}
+
 func genC37(c *hlib.Ctx) {
 	rr := c.R
+	// block level: Downsample() raw -> 5m -> 1h on real blocks, counters with resets
+	for _, n := range []int{3000, 33500} {
+		c.Count("block:" + strconv.Itoa(n))
+		c.Do(fmt.Sprintf("o.block %d %d counter", rr.Intn(1<<30), n), true)
+	}
+	for i := 0; i < c.N(0, 6); i++ {
+		n := []int{70000, 33000 + rr.Intn(3000), 5000 + rr.Intn(60000)}[i%3]
+		c.Count("block:thorough")
+		c.Do(fmt.Sprintf("o.block %d %d counter", rr.Intn(1<<30), n), true)
+	}
+	// the entry point DownsampleRaw decides the level-1 chunking itself (several chunks, resets between them)
+	lpairs := [][2]int64{{300000, 3600000}, {50, 100}, {1000, 5000}, {10, 120}}
+	for i := 0; i < c.N(40, 1500); i++ {
+		p := lpairs[rr.Intn(len(lpairs))]
+		ts, vals := genLongSeries(c, p[0], true)
+		nc1 := tccRaw(ts, p[0])
+		c.Count("long-auto:l1chunks:" + bucket(nc1))
+		field := samplesField(ts, vals)
+		_, vs, _ := parseSamples(field)
+		metas, _ := rawLevel("man", p[0], nc1, ts, vs)
+		_, acs := decode(metas)
+		_, _, nc2 := autoNC2(metas, acs, p[0], p[1])
+		if nc2 > len(acs) {
+			nc2 = max(1, len(acs))
+		}
+		c.Do(fmt.Sprintf("ds.ctr %d %d %d %d %s", p[0], nc1, p[1], nc2, field), true)
+	}
+	defer func() { c.Dist["entry:DownsampleRaw(level 1)"] = entryDownsampleRaw }()
 	n := c.N(1200, 20000)
 	pairs := [][2]int64{{300000, 3600000}, {300000, 3600000}, {300000, 3600000}, {50, 100}, {10, 120}, {1000, 5000}, {7, 21}, {50, 50}}
 	hangs := 0 // calls that did not return cost a full deadline each: stop provoking them after two
